@@ -120,7 +120,7 @@ def abstract_read(region, rel):
         d, f = ("@pkg",), rel
     elif region in ("res", "root", "out"):
         parts = rel.split(os.sep)
-        d, f = tuple(parts[:-1]), parts[-1]
+        d, f = tuple("sib" if x in fsdoc.SIB.values() else x for x in parts[:-1]), parts[-1]
     else:
         return (("@" + region,), rel)
     if f.endswith(".pickle.gz"):
@@ -150,7 +150,7 @@ def direction_a(ck, dev):
     results = {}
     threads = []
     for name, consts, _ in spaces:
-        for mode in ("intended", "coded"):
+        for mode in (("intended", "coded") if dev else ("coded",)):      # no deviation in force: one machine only
             emit = os.path.join(ck.tmp, "c15_%s.ndjson" % name) if mode == "coded" else None
             th = threading.Thread(target=tlc_run, args=(ck, name, consts, dev if mode == "coded" else [], emit, results, name + "_" + mode))
             th.start()
@@ -161,9 +161,11 @@ def direction_a(ck, dev):
         if isinstance(r, BaseException):
             raise r
     for name, consts, need in spaces:
-        ck.add_tlc(results[name + "_intended"], "%s sites, names <= %s segments, intended design (Dev = {})" % (name, consts["MaxSeg"] or consts["MaxSegImage"]))
-        ck.add_tlc(results[name + "_coded"], "%s sites, names <= %s segments, as coded (Dev = %s)" % (name, consts["MaxSeg"] or consts["MaxSegImage"], dev))
-        require_coverage(results[name + "_intended"], need)
+        if dev:
+            ck.add_tlc(results[name + "_intended"], "%s sites, names <= %s segments, intended design (Dev = {})" % (name, consts["MaxSeg"] or consts["MaxSegImage"]))
+            require_coverage(results[name + "_intended"], need)
+        ck.add_tlc(results[name + "_coded"], "%s sites, names <= %s segments, %s" % (name, consts["MaxSeg"] or consts["MaxSegImage"],
+                                                                               "as coded (Dev = %s)" % dev if dev else "intended design = as coded (Dev = {})"))
         require_coverage(results[name + "_coded"], need)
     # ------------------------------------------------------------------ CMap sites
     by_site = {}
@@ -274,7 +276,7 @@ def judge_cmap(ck, site, group, res, meta, final):
         return False
     names = [r["n"] for r in group]
     for r in group:
-        ck.case(1, ("cmap", site, r["n"]["abs"], tuple(r["n"]["segs"])) if any(s in ("dd", "e", "nul", "long", "dec") for s in r["n"]["segs"]) or r["n"]["abs"] else None)
+        ck.case(1, ("cmap", site, r["n"]["abs"], tuple(r["n"]["segs"])) if any(s in ("dd", "e", "nul", "long", "dec", "sib") for s in r["n"]["segs"]) or r["n"]["abs"] else None)
     if len(ck.samples) < 3 and observed:
         ck.sample({"site": site, "names": [fsdoc.spell(n, "$ROOT").replace("\0", "\\0")[:60] for n in names][:6],
                    "files_opened": sorted("/".join(d) + "/" + w for d, w in observed)})
@@ -292,7 +294,7 @@ def judge_cmap(ck, site, group, res, meta, final):
 
 
 def image_text(r, root):
-    return fsdoc.spell(r["n"], root)
+    return fsdoc.spell(r["n"], root, "image")
 
 
 def image_job(jid, r):
@@ -343,7 +345,8 @@ def judge_image(ck, r, res):
         if c["dir"] == ["@above"]:
             pred_above += 1
         else:
-            pred_created.add(os.path.join(*(c["dir"] + [fn])) if c["dir"] else fn)
+            cdir = [fsdoc.SIB["image"] if x == "sib" else x for x in c["dir"]]
+            pred_created.add(os.path.join(*(cdir + [fn])) if cdir else fn)
     pred_err = None if r["er"] == "none" else r["er"]
     real_err = res["exc"]
     if wouldfail and real_err == "PermissionError":
@@ -353,7 +356,7 @@ def judge_image(ck, r, res):
         same = set(created) <= pred_created and pred_above >= 1
     else:
         same = set(created) == pred_created and pred_above == 0 and (real_err or None) == pred_err
-    hostile = r["n"]["abs"] or any(s in ("dd", "e", "nul", "long", "dec", "sub", "d") for s in r["n"]["segs"]) or len(r["n"]["segs"]) != 1
+    hostile = r["n"]["abs"] or any(s in ("dd", "e", "nul", "long", "dec", "sub", "d", "sib") for s in r["n"]["segs"]) or len(r["n"]["segs"]) != 1
     ck.case(1, ("image", r["n"]["abs"], tuple(r["n"]["segs"]), tuple(init), draws) if hostile or init else None)
     case = {"site": "image", "name": r["n"], "init": init, "draws": draws, "created": created, "modified": res["modified"],
             "deleted": res["deleted"], "blocked_outside_scratch": [e.get("path") for e in blocked], "exception": res["exc"],
